@@ -36,16 +36,18 @@ proof fn lemma_step(k: int, i: int, length: int)
     if k % length == 0 && i * length <= k < (i + 1) * length { lemma_multiple_between(k, i, length); }
 }
 
-//@unit feedback.skip_table prop=C11
+//@unit feedback.skip_table prop=C11 search=feedback.forward
 #[verifier::loop_isolation(false)]
 fn skip_table(length: usize, loops: usize, inskips: bool, outskips: bool) -> (connect: HashMap<usize, Vec<usize>>)
     requires length >= 1, loops >= 1, length * loops < 0x1_0000_0000,
         //@requires-extra
     ensures
-        forall|k: usize| #[trigger] connect@.contains_key(k) <==> ((inskips && is_rep_start(k as int, length as int, loops as int)) || (outskips && k == loops * length)), //@ob exactly_these_positions
+        forall|k: usize| #[trigger] connect@.contains_key(k) <==> ((inskips && is_rep_start(k as int, length as int, loops as int)) || (outskips && loops > 1 && k == loops * length)), //@ob exactly_these_positions
         inskips ==> forall|k: usize| is_rep_start(k as int, length as int, loops as int) ==> (#[trigger] connect@[k])@ == seq![0usize], //@ob later_repetitions_receive_the_block_input
-        outskips ==> connect@[(loops * length) as usize]@.len() == loops - 1
+        outskips && loops > 1 ==> connect@[(loops * length) as usize]@.len() == loops - 1
             && forall|j: int| 0 <= j < loops - 1 ==> (#[trigger] connect@[(loops * length) as usize]@[j]) == (j + 1) * length, //@ob output_receives_all_earlier_repetition_outputs
+        // what Feedback::forward needs of the table (its precondition `table_ok`): every entry names at least one source
+        forall|k: usize| #[trigger] connect@.contains_key(k) ==> connect@[k]@.len() >= 1, //@ob every_entry_names_at_least_one_source
 {
     broadcast use vstd::std_specs::hash::group_hash_axioms;
     proof {
